@@ -47,7 +47,7 @@ ASSUMPTIONS = [
 ]
 OBLIGATIONS = {"adapter-call": 300, "variant:contiguous": 50, "variant:strided": 50,
                "variant:fortran": 10, "variant:int": 30, "variant:pandas": 30,
-               "variant:grid": 10, "variant:nan": 30, "repeat-call": 100, "replayed-workload": 5}
+               "variant:grid": 10, "variant:nan": 30, "variant:nanrow": 30, "repeat-call": 100, "replayed-workload": 5}
 ANCHORED = ["hydrodiy.stat.metrics.crps", "hydrodiy.stat.metrics.anderson_darling_test",
             "hydrodiy.stat.metrics.dscore", "hydrodiy.stat.sutils.pareto_front",
             "hydrodiy.stat.sutils.lstsq", "hydrodiy.stat.armodels.armodel_sim",
@@ -61,7 +61,7 @@ VERIF = Path(__file__).resolve().parent.parent.parent
 
 class V:
     """argument variants"""
-    names = ["contiguous", "strided", "fortran", "int", "pandas", "nan"]
+    names = ["contiguous", "strided", "fortran", "int", "pandas", "nan", "nanrow"]
 
     def __init__(self, kind, rng):
         self.kind = kind
@@ -79,7 +79,7 @@ class V:
             return np.round(base * 4).astype(np.int64)
         if k == "pandas":
             return pd.Series(base.copy())
-        if k == "nan" and len(base) >= 6:
+        if k in ("nan", "nanrow") and len(base) >= 6:
             b = np.ascontiguousarray(base.copy())
             b[[0, 1, len(b) // 2, -1]] = np.nan      # missing data at both ends
             return b
@@ -102,6 +102,11 @@ class V:
         if k == "nan" and base.shape[0] >= 6:
             b = np.ascontiguousarray(base.copy())
             b[[0, base.shape[0] // 2, -1], 0] = np.nan
+            return b
+        if k == "nanrow" and base.shape[0] >= 6:
+            # time steps missing in every column
+            b = np.ascontiguousarray(base.copy())
+            b[[1, base.shape[0] // 3, -2], :] = np.nan
             return b
         return np.ascontiguousarray(base.copy())
 
